@@ -55,6 +55,8 @@ func c15Menu() []c15Rec {
 		// two different regions with the same end points (a gene and its spliced CDS), plus the same on the other strand
 		{c15Feature("f1", "gene", gts.Range(2, 9)), c15Feature("f2", "CDS", gts.Joined{gts.Range(2, 4), gts.Range(7, 9)}),
 			c15Feature("f3", "gene", gts.Complemented{Location: gts.Range(3, 11)}), c15Feature("f4", "CDS", gts.Complemented{Location: gts.Joined{gts.Range(3, 5), gts.Range(9, 11)}})},
+		// a complement-strand region enclosing several disjoint forward regions (sorting/merging of mixed orientations)
+		{c15Feature("f1", "gene", gts.Complemented{Location: gts.Range(1, 11)}), c15Feature("f2", "gene", gts.Range(2, 4)), c15Feature("f3", "gene", gts.Range(5, 7)), c15Feature("f4", "gene", gts.Range(8, 10))},
 	}
 	var out []c15Rec
 	for ti, t := range tables {
